@@ -7,6 +7,9 @@ import common
 import core_checks
 
 KINDS = ["ko_gene"] * 6 + ["ko_genes"] * 3 + ["ko_rxn"] * 2 + ["enter", "exit", "exit"]
+# knock-outs interleaved with what a user does between them: re-opening bounds, flags set directly, rules edited in place
+KINDS2 = ["ko_gene"] * 5 + ["ko_genes"] * 3 + ["ko_rxn", "set_bounds", "set_bounds", "set_functional", "set_functional", "set_rule",
+          "remove_genes", "remove_genes", "rename_genes", "enter", "exit", "exit"]
 RULE = ("random models with shared genes and nested and/or rules; random sequences of Gene.knock_out, knock_out_model_genes (subsets, any order, "
         "repeats) and Reaction.knock_out inside/outside nested contexts; after every step bounds, gene.functional, reaction.functional and the "
         "GLPK column bounds are compared with an independent truth-table evaluator; counted: distinct (model, last three ops)")
@@ -57,50 +60,50 @@ def ev(t, ko):
 
 
 def oracle(op, err, before, ex):
-    """Independent knock-out oracle on the real model."""
+    """Independent knock-out oracle on the real model (transition based)."""
     m = ex.model
     probs = []
-    st = ex.__dict__.setdefault("_c07", {"orig": None, "stack": []})
-    if st["orig"] is None:
-        st["orig"] = {r: (v["lb"], v["ub"]) for r, v in before["content"]["rxns"].items()}
     k = op["op"]
-    if k == "enter":
-        st["stack"].append(dict(st["orig"]))
-    elif k == "exit" and st["stack"]:
-        st["orig"] = st["stack"].pop()
-    elif k == "ko_rxn" and err is None:
-        st["orig"][op["r"]] = ("0", "0")
-    if err is None:
-        if k == "ko_gene" and m.genes.get_by_id(op["g"]).functional:
-            probs.append(f"gene {op['g']} still reports functional after knock_out")
-        if k == "ko_genes":
-            for g in op["gs"]:
-                if m.genes.get_by_id(g).functional:
-                    probs.append(f"gene {g} still reports functional after knock_out_model_genes")
     ko = {g.id for g in m.genes if not g.functional}
     glpk = canon.glpk_dump(m)["vars"]
+    knocked = []
+    if err is None and k == "ko_gene":
+        knocked = [op["g"]]
+    elif err is None and k == "ko_genes":
+        knocked = list(op["gs"])
+    for g in knocked:
+        if m.genes.get_by_id(g).functional:
+            probs.append(f"gene {g} still reports functional after its knock-out")
+    # reactions that list one of the knocked-out genes, according to the state before the call
+    touched = set()
+    for g in knocked:
+        touched |= set(before["content"]["genes"].get(g, {}).get("rx", []))
     for r in m.reactions:
         tree = parse_rule(r.gene_reaction_rule)
         alive = ev(tree, ko)
         if bool(r.functional) != alive:
             probs.append(f"{r.id}.functional = {r.functional} but its rule {r.gene_reaction_rule!r} is {alive} with {sorted(ko)} absent")
-        want = st["orig"].get(r.id)
-        if want is None:
-            continue
-        if not alive:
-            want = ("0", "0")
-        got = (canon.num(r.lower_bound), canon.num(r.upper_bound))
-        if got != want:
-            probs.append(f"{r.id} has bounds {got}, expected {want} (rule {r.gene_reaction_rule!r}, absent {sorted(ko)})")
         f, rv = canon.split_bounds(r.lower_bound, r.upper_bound)
         if tuple(glpk.get(r.id, [None, None])[:2]) != f or tuple(glpk.get(r.reverse_id, [None, None])[:2]) != rv:
-            probs.append(f"solver variable bounds of {r.id} do not match its bounds {got}")
+            probs.append(f"solver variable bounds of {r.id} do not match its bounds")
+        old = before["content"]["rxns"].get(r.id)
+        if old is None:
+            continue
+        got = (canon.num(r.lower_bound), canon.num(r.upper_bound))
+        if k in ("ko_gene", "ko_genes") and err is None:
+            want = ("0", "0") if (r.id in touched and not alive) else (old["lb"], old["ub"])
+            if got != want:
+                probs.append(f"after knocking out {knocked}: {r.id} has bounds {got}, expected {want} (rule {r.gene_reaction_rule!r}, absent {sorted(ko)})")
+        elif k == "ko_rxn" and err is None:
+            want = ("0", "0") if r.id == op["r"] else (old["lb"], old["ub"])
+            if got != want:
+                probs.append(f"after knocking out reaction {op['r']}: {r.id} has bounds {got}, expected {want}")
     return probs
 
 
 def run(ctx):
     return core_checks.run_core_property(ctx, "CobraModel.Props.C07", kinds=KINDS, oracles=("ctx",), quick=500, thorough=10000, rule=RULE,
-                                         extra_oracle=oracle, maxlen=12,
+                                         extra_oracle=oracle, maxlen=12, profiles=[KINDS, KINDS2],
                                          assumptions=["the multi-gene statement is obtained by iterating the one-gene theorem; its closed form over an arbitrary "
                                                       "knock-out list is checked by the truth-table oracle, not yet a single theorem"])
 
